@@ -1,6 +1,6 @@
 (* C15 — refresh liveness.  Property theorems only.  Discrete-time model; whether the stamp is
    per instance and the divisor of the skip rule come from the Go source. *)
-From Verif Require Import Base Ticker TickerProofs.
+From Verif Require Import Base Ticker TickerProofs Repo RepoProofs RepoProps ProvisionProofs.
 From Verif.gen Require GenFacts.
 
 (* for any number of validator instances, any intervals, any interleaving of their ticks and
@@ -34,3 +34,29 @@ Example C15_two_instances :
   passed_in (trun (fun _ => 100%Z) 1 two_instances) 1 224 226 = true /\
   passed_in (trun (fun _ => 100%Z) 1 two_instances) 1 324 326 = true.
 Proof. exact two_instances_ok. Qed.
+
+(* "CRLs configured by file or URL are in force by the time provisioning returns": for every configuration
+   (storage, signature mode, fetch mode, strictness), every set of trusted signers, every list of configured
+   locations, whatever they serve and whatever an earlier run left on disk — if provisioning returns without
+   error, every configured location holds in force exactly the list it serves, accepted under the signature
+   policy; hence the very first handshake rejects a certificate that is on a configured list. *)
+Theorem C15_configured_in_force : forall cfg ev trusted locs st st' loc,
+  provision cfg ev trusted locs (restart cfg st) = Some st' -> In loc locs ->
+  exists e l, lookup [loc] (entries st') = Some e /\ e_loaded e = true /\ e_list e = Some l /\
+              ev loc = Serve l /\ list_ok cfg l /\ (r_sigmode cfg = SigVerify -> verified l trusted = true).
+Proof. intros cfg ev trusted locs st st' loc H Hin. exact (provision_after_restart cfg ev trusted locs st st' H loc Hin). Qed.
+Print Assumptions C15_configured_in_force.
+
+Theorem C15_first_handshake_after_provisioning : forall cfg ev trusted locs st st' loc c l,
+  provision cfg ev trusted locs (restart cfg st) = Some st' -> In loc locs -> ev loc = Serve l -> listed c l = true ->
+  snd (handshake cfg ev st' c) <> VAccept.
+Proof. exact provision_then_first_handshake. Qed.
+Print Assumptions C15_first_handshake_after_provisioning.
+
+Example C15_provision_nonvacuous :
+  let cfg := {| r_storage := Memory; r_sigmode := SigVerify; r_fetch := Background; r_strict := false |} in
+  let ev := set_env (fun _ => Down) 5 (Serve good_list) in
+  (exists st', provision cfg ev [1%N] [5%N] (restart cfg (snd init_state)) = Some st' /\
+     snd (handshake cfg ev st' {| c_issuer := 1; c_serial := 103; c_cdps := []; c_chain := [1%N; 9%N] |}) = VRevoked) /\
+  provision cfg ev [] [5%N] (restart cfg (snd init_state)) = None.
+Proof. exact provision_example. Qed.
